@@ -95,10 +95,17 @@ func (l *LevelKV) Set(id []byte, val []byte) error {
 
 // Update runs an alteration transaction of the kvstore
 func (l *LevelKV) Update(u func(tx kvi.KVTransaction) error) error {
-	tx, _ := l.db.OpenTransaction()
+	tx, err := l.db.OpenTransaction()
+	if err != nil {
+		return err
+	}
 	ktx := levelTransaction{tx, l.db}
-	defer tx.Commit()
-	return u(ktx)
+	if err := u(ktx); err != nil {
+		// a failed update leaves nothing behind, as with the other drivers
+		tx.Discard()
+		return err
+	}
+	return tx.Commit()
 }
 
 // BulkWrite is a copy of Update, with no special function yet...
@@ -192,21 +199,32 @@ func (lit *levelIterator) Seek(id []byte) error {
 		lit.value = copyBytes(lit.it.Value())
 		return nil
 	}
+	lit.key = nil
+	lit.value = nil
 	return fmt.Errorf("Invalid")
 }
 
 func (lit *levelIterator) SeekReverse(id []byte) error {
 	lit.forward = false
+	found := false
 	if lit.it.Seek(id) {
+		found = true
 		//Level iterator will land on the first value above the request
 		//if we're there, move once to get below start request
 		if bytes.Compare(id, lit.it.Key()) < 0 {
-			lit.it.Prev()
+			found = lit.it.Prev()
 		}
+	} else {
+		// every key is below id: the reverse scan starts at the last one
+		found = lit.it.Last()
+	}
+	if found {
 		lit.key = copyBytes(lit.it.Key())
 		lit.value = copyBytes(lit.it.Value())
 		return nil
 	}
+	lit.key = nil
+	lit.value = nil
 	return fmt.Errorf("Invalid")
 }
 
